@@ -466,6 +466,23 @@ func c04(c *Ctx) {
 				r := assignRHS(n, isQ)
 				return r != nil && isAppendTo(info, r, isQ)
 			}))
+			// ring representation: at capacity the value overwrites a slot in place (queue[i] = value) — a store and an eviction in one
+			valueP := fn.Obj.Type().(*types.Signature).Params().At(0)
+			overwrites := toSet(g.Match(func(n ast.Node) bool {
+				as, ok := n.(*ast.AssignStmt)
+				if !ok || as.Tok != token.ASSIGN || len(as.Lhs) != 1 || len(as.Rhs) != 1 {
+					return false
+				}
+				ie, isIx := unparen(as.Lhs[0]).(*ast.IndexExpr)
+				return isIx && isQ(ie.X) && sameVar(info, as.Rhs[0], valueP)
+			}))
+			stored := map[*GNode]bool{}
+			for x := range appends {
+				stored[x] = true
+			}
+			for x := range overwrites {
+				stored[x] = true
+			}
 			// a drop is counted directly or through a helper that counts on every path (e.g. count + log once)
 			drops := toSet(g.Match(ix.mustEffect(fn, func(n ast.Node) bool {
 				if s, ok := n.(*ast.IncDecStmt); ok && s.Tok == token.INC && isField(info, s.X, fDrop) {
@@ -547,7 +564,7 @@ func c04(c *Ctx) {
 						seen, _ := g.ReachFromEdge(e, nil)
 						app := false
 						for y := range seen {
-							if appends[y] {
+							if stored[y] {
 								app = true
 							}
 						}
@@ -560,7 +577,7 @@ func c04(c *Ctx) {
 						}
 					}
 					if capNonZero(e) {
-						s2, par := g.ReachFromEdge(e, func(y *GNode) bool { return appends[y] })
+						s2, par := g.ReachFromEdge(e, func(y *GNode) bool { return stored[y] })
 						if s2[g.Exit] {
 							nonzeroOK = 0
 							why = g.pathLines(par, g.Exit)
@@ -570,7 +587,7 @@ func c04(c *Ctx) {
 					}
 					if full(e) {
 						// before the append: an eviction and a drop
-						s2, _ := g.ReachFromEdge(e, func(y *GNode) bool { return evicts[y] })
+						s2, _ := g.ReachFromEdge(e, func(y *GNode) bool { return evicts[y] || overwrites[y] })
 						s3, _ := g.ReachFromEdge(e, func(y *GNode) bool { return drops[y] })
 						bad := false
 						for y := range s2 {
@@ -588,6 +605,15 @@ func c04(c *Ctx) {
 						} else if fullOK < 0 {
 							fullOK = 1
 						}
+					}
+				}
+			}
+			// a value that overwrote a slot is stored: an append after it would store it twice and grow the queue
+			for x := range overwrites {
+				after, _ := g.Reach([]*GNode{x}, nil, nil)
+				for y := range after {
+					if appends[y] {
+						fullOK = 0
 					}
 				}
 			}
